@@ -361,6 +361,9 @@ func runC12(rc *fw.RunCtx) {
 	sched := rc.Tape.Stream("sched")
 	strat := sim.DrawStrategy(sched, 100)
 	s := sim.New(sched, strat, 20000)
+	if round%2 == 1 {
+		sos.YieldFn = s.Yield // slow disk in odd rounds: OS calls are scheduling points
+	}
 
 	globals := c12Globals()
 	var names []string
@@ -493,7 +496,7 @@ func runC12(rc *fw.RunCtx) {
 			guard(out, func() (object.Object, error) { return risor.Eval(ctx, src, opts...) })
 		})
 	}
-	s.Until = func() bool { return out.Done && len(aliveExcept(s, "vm.watcher")) == 0 }
+	s.Until = func() bool { return out.Done && len(aliveExcept(s, "vm.watcher", "file.watcher")) == 0 }
 	verdict := s.Run()
 	s.Shutdown(cancel)
 	rc.AbsorbSim(s, strat.Name())
